@@ -86,7 +86,7 @@ def gen_cases(tier, seed):
             # sits next to the total-reflection edge of r(theta), where a launch-angle scan has the least room
             i_up = int(rng.integers(0, nl - 1))
             j_dn = int(rng.integers(i_up + 1, nl))
-            if layers[i_up]["n"] < layers[j_dn]["n"]:
+            if layers[i_up]["n"] < layers[j_dn]["n"] and edges[i_up] - edges[i_up + 1] > 1.5 and edges[j_dn] - edges[j_dn + 1] > 1.5:
                 pinv = layers[i_up]["n"] * np.cos(np.radians(float(rng.uniform(0.3, 6.0))))
                 if all(layers[l_]["n"] > pinv for l_ in range(i_up, j_dn + 1)):
                     z1 = float(rng.uniform(edges[i_up + 1] + 0.5, edges[i_up] - 0.5))
